@@ -49,7 +49,10 @@ func (n *simNet) sendFrom(from uint16) func(msgType uint8, topic []byte, msg []b
 		n.mu.Lock()
 		defer n.mu.Unlock()
 		for _, dst := range to {
-			m := &tss.IncMessage{Data: append([]byte(nil), msg...), Source: from, MsgType: msgType, Topic: append([]byte(nil), topic...)}
+			// like the bundled transport (net.SocketRemoteParties.Send queues the slices it is given and writes them from another
+			// goroutine), the network keeps the caller's slices by reference until delivery: a sender that reuses a buffer
+			// after Send returned damages what is still in flight
+			m := &tss.IncMessage{Data: msg, Source: from, MsgType: msgType, Topic: topic}
 			n.sentCount[from]++
 			if n.onSend != nil {
 				n.onSend(from, dst, m)
